@@ -191,11 +191,17 @@ def check_case(case, ev):
         L = case["loop"]
         TYPED.update({"i": L["start"], "acc": (), "step": L["step"], "limit": L["limit"], "x": L["limit"] - L.get("limit_off", 0), "go": True})
         TYPED.update({f"t{j}": ("t", j, L["start"]) for j in range(4)})
+        TYPED.update({"messages": (), "query": ("q", 0), "response": ("r", 0), "tot": ()})
         gspec = loop_graph_spec(case["loop"])
         if case["loop"].get("nested"):
             labels.add("nested_loop")
-            if case["loop"]["k"] >= 2:
-                shape = "nested_cycle_multi_entry"
+            # F11 applies when the wrapped loop offers several entry points with different parameter sets
+            try:
+                inner = make_graph(Ctx(compact=True), loop_graph_spec({**case["loop"], "nested": False}), "sync")
+                if len({tuple(v) for v in inner.inputs.entrypoints.values()}) >= 2:
+                    shape = "nested_cycle_multi_entry"
+            except Exception:  # noqa: BLE001
+                pass
     else:
         gspec = {"nodes": case["nodes"]}
     try:
